@@ -10,7 +10,7 @@ import vlib
 from checks import common
 
 LEVEL = "proof"
-HARNESS = {"csg": ["corecel", "geocel", "orange"]}
+HARNESS = {"csg": ["corecel", "geocel", "orange"], "csgrt": ["corecel", "geocel", "orange"]}
 MANIFEST = {
     "category": "proof",
     "technique": "Lean 4 proof over an executable model of CsgTree / NodeSimplifier / "
@@ -1396,6 +1396,169 @@ def run_findings(ctx, exe):
     return res
 
 
+
+# ----------------------------------------------------------------------------- runtime flags
+RT_BUILDS = ["convex-daughter", "nonconvex-daughter", "universes", "nested-nonconvex", "bgspheres"]
+FLAG_INTERNAL, FLAG_IMPLICIT, FLAG_SIMPLE, FLAG_EMBEDDED = 1, 2, 4, 8
+
+
+def rt_parse(line):
+    """`ok units n | U u label unit | V ... ; V ... | U ...` -> list of (u, label, kind, [vol dict])"""
+    units = []
+    parts = [p.strip() for p in line.split(" | ")]
+    cur = None
+    for p in parts[1:]:
+        if p.startswith("U "):
+            w = p.split()
+            cur = (int(w[1]), w[2], w[3], [])
+            units.append(cur)
+        elif p.startswith("V ") and cur is not None:
+            for vs in p.split(" ; "):
+                w = vs.split()
+                d = {"v": int(w[1])}
+                for kv in w[2:]:
+                    k, _, val = kv.partition("=")
+                    d[k] = val
+                cur[3].append(d)
+    return units
+
+
+def logic_is_conj(tokens, nf):
+    """True/False: the postfix logic over faces 0..nf-1 is a constant or a conjunction of
+    literals (its satisfying set is empty or a sub-cube); None when it cannot be decided
+    (malformed, or too many faces for the exhaustive table and not syntactically a conjunction)"""
+    if nf <= 16:
+        n, full, var = var_masks(max(nf, 1))
+        st = []
+        for t in tokens:
+            if t.isdigit():
+                if int(t) >= max(nf, 1):
+                    return None
+                st.append(var[int(t)])
+            elif t == "*":
+                st.append(full)
+            elif t == "~":
+                if not st:
+                    return None
+                st.append(full ^ st.pop())
+            elif t in "&|":
+                if len(st) < 2:
+                    return None
+                b, a = st.pop(), st.pop()
+                st.append(a & b if t == "&" else a | b)
+            else:
+                return None
+        if len(st) != 1:
+            return None
+        sat = st[0]
+        cube = full
+        for f in range(max(nf, 1)):
+            if not (sat & (full ^ var[f])):
+                cube &= var[f]
+            elif not (sat & var[f]):
+                cube &= full ^ var[f]
+        return sat == 0 or cube == sat
+    # syntactic: literals joined by & only
+    if "|" in tokens:
+        return None
+    for i, t in enumerate(tokens):
+        if t == "~" and not (i > 0 and (tokens[i - 1].isdigit() or tokens[i - 1] == "*")):
+            return None
+    return True
+
+
+def run_runtime(ctx, broken):
+    """(1) load every bundled .org.json and the API-built geometries into a real OrangeParams,
+    (2) oracle: `internal_surfaces` unset => stored logic is a conjunction of literals,
+    (3) exact diff of the stored flags with the Lean model of UnitInserter's flag statements."""
+    cov = {"geometries": 0, "load_errors": {}, "units": 0, "arrays": 0, "volumes": 0,
+           "daughter_volumes": 0, "daughter_in_nonconvex_parent": 0, "background_volumes": 0,
+           "flag_unset_checked": 0, "flag_unset_undecided": 0, "model_compared": 0,
+           "forced_limit_replacements": 0}
+    exe, log, _ = vlib.build_harness("csgrt", HARNESS["csgrt"])
+    if exe is None:
+        broken.append("harness/csgrt.cc no longer builds against /repo")
+        ctx.coverage["runtime_flags"] = cov
+        return
+    ddir = os.path.join(vlib.REPO, "test", "orange", "data")
+    files = sorted(f for f in os.listdir(ddir) if f.endswith(".org.json")) \
+        if os.path.isdir(ddir) else []
+    ops = ["build " + n for n in RT_BUILDS] + ["load " + f for f in files]
+    runs = [(None, ops), ("4,9", ["build " + n for n in RT_BUILDS[:4]] + ["load universes.org.json"])]
+    model_lines, model_expect = [], []
+    for env_limit, oplist in runs:
+        env = {"ORANGE_MAX_FACE_INTERSECT": env_limit} if env_limit else None
+        outs = []
+        for op in oplist:
+            # one process per geometry: a crash inside the real loader (e.g. the JSON reader
+            # segfaults on inputbuilder-involute*.org.json, outside C10) only loses that file
+            try:
+                rc, o = vlib.run_lines([exe], [op], timeout=600, env=env)
+            except subprocess.TimeoutExpired:
+                rc, o = -1, ["error timeout"]
+            outs.append(o[0] if o and o[0] else f"error crashed rc={rc}")
+        limit = int(env_limit.split(",")[0]) if env_limit else None
+        for op, line in zip(oplist, outs):
+            if not line.startswith("ok "):
+                cov["load_errors"][op] = line[:160]
+                continue
+            cov["geometries"] += 1
+            for u, label, kind, vols in rt_parse(line):
+                if kind != "unit":
+                    cov["arrays"] += 1
+                    continue
+                cov["units"] += 1
+                for d in vols:
+                    cov["volumes"] += 1
+                    fin, fout = int(d["in"]), int(d["out"])
+                    toks = d["L"].split(",") if d["L"] else []
+                    dau, ss = d["dau"] == "1", d["ss"] == "1"
+                    ex = limit is not None and (int(d["mi"]) > limit or int(d["inf"]) > limit)
+                    cov["daughter_volumes"] += dau
+                    cov["background_volumes"] += d["bg"] == "1"
+                    cov["forced_limit_replacements"] += ex
+                    if dau and "|" in toks:
+                        cov["daughter_in_nonconvex_parent"] += 1
+                    # (3) model
+                    model_lines.append("rtflags %d %d %d %d" % (fin, ss, ex, dau))
+                    model_expect.append((op, env_limit, u, label, d["v"], fout))
+                    # (2) oracle on what the tracker reads
+                    if not (fout & FLAG_INTERNAL):
+                        ok = logic_is_conj(toks, int(d["nf"]))
+                        if ok is None:
+                            cov["flag_unset_undecided"] += 1
+                        else:
+                            cov["flag_unset_checked"] += 1
+                            if not ok:
+                                ctx.violation(
+                                    "runtime-flag-internal-surfaces-unsound",
+                                    f"real OrangeParams ({op}, unit {u} `{label}`, volume "
+                                    f"{d['v']}): VolumeRecord flags {fout} have internal_surfaces "
+                                    f"unset but the stored logic `{' '.join(toks)}` is not an "
+                                    "intersection of half-spaces",
+                                    {"harness": "harness/csgrt.cc", "ops": [op],
+                                     "env": {"ORANGE_MAX_FACE_INTERSECT": env_limit},
+                                     "unit": u, "unit_label": label, "volume": d["v"],
+                                     "logic": toks, "input_flags": fin, "stored_flags": fout,
+                                     "has_daughter": dau,
+                                     "contradicts": "runtimeFlag_sound / runtimeFlag_sound_proto"})
+                    # stored logic must be the input logic unless replaced by the unreachable volume
+                    if ("IL" in d) != ex or (ex and toks != ["*", "~"]):
+                        broken.append(f"runtime logic: {op} unit {u} volume {d['v']}: stored logic "
+                                      f"`{d['L']}` vs input `{d.get('IL', d['L'])}` (exceeds={ex})")
+    if model_lines and os.path.exists(vlib.model_exe("C10")):
+        _, mo = vlib.run_lines([vlib.model_exe("C10")], model_lines, timeout=300)
+        for ml, exp, got in zip(model_lines, model_expect, mo):
+            cov["model_compared"] += 1
+            m = re.match(r"out (\d+) internal ([01])$", got)
+            if not m or int(m.group(1)) != exp[5]:
+                broken.append(f"runtime flags: model `{ml}` -> `{got}` but the real UnitInserter "
+                              f"stored {exp[5]} ({exp[0]}, limit {exp[1]}, unit {exp[2]} "
+                              f"`{exp[3]}`, volume {exp[4]})")
+                break
+    ctx.coverage["runtime_flags"] = cov
+
+
 def run(ctx):
     quick = ctx.quick()
     rng = ctx.rng
@@ -1568,6 +1731,8 @@ def run(ctx):
                 S["samples"] += [g.ops[:40] for g in gens[:2]]
             process([g.ops for g in gens], [True] * m, gens, with_model)
             done += m
+
+    run_runtime(ctx, broken)
 
     corpus, cvalid = [], []
     corpus_dir = os.path.join(vlib.CORPUS, "C10")
